@@ -197,6 +197,11 @@ def run_upgrade(ws, scn, sts, hashseed=0, **kw):
                             spec.render_evolutions_init(['h1'])})
     else:
         proj.deploy(ws, P, 1, sts)
+    if scn.get('driver') == 'api_nested':
+        r = ws.run('api', {'nested_atomic': True}, hashseed=hashseed, **kw)
+        if r.status == 'ok' and (r.exit or {}).get('evolved'):
+            pass
+        return r, hint
     r = ws.run('evolve', {'execute': True}, hashseed=hashseed, **kw)
     return r, hint
 
